@@ -638,6 +638,28 @@ func (e *twoPCEngine) execOnce(ops []string) ([]string, bool) {
 	}()
 	out := make([]string, len(ops))
 	bg := context.Background()
+	// key -> region is fixed for the whole case (a minimised replay may have lost its `regions`
+	// line while seeds precede the `txn` line that carries the same map)
+	for _, op := range ops {
+		toks := strings.Fields(op)
+		if len(toks) == 0 || (toks[0] != "regions" && toks[0] != "txn") {
+			continue
+		}
+		arg := kvArg(toks, "map")
+		if toks[0] == "txn" {
+			arg = kvArg(toks, "regions")
+		}
+		for _, p := range strings.Split(arg, ",") {
+			ab := strings.Split(p, ":")
+			if len(ab) == 2 {
+				k, _ := strconv.Atoi(ab[0])
+				r, _ := strconv.Atoi(ab[1])
+				if _, ok := c.regions[k]; !ok {
+					c.regions[k] = r
+				}
+			}
+		}
+	}
 	for i, op := range ops {
 		toks := strings.Fields(op)
 		if len(toks) == 0 {
